@@ -73,6 +73,15 @@ class ErrorNode(abc.ABC):
         return buf.getvalue().rstrip('\n')
 
 
+def _show(val: t.Any) -> str:
+    """Text of an offending value or key inside a message. Messages must not fail themselves."""
+    try:
+        return str(val)
+    except Exception:
+        # e.g. an int with more digits than `str()` is willing to produce
+        return f"<unprintable {type(val).__name__}>"
+
+
 @dataclasses.dataclass
 class WrongTypeError(ErrorNode):
     expected: str
@@ -88,7 +97,7 @@ class WrongTypeError(ErrorNode):
         if inside_sum:
             print(f"{self.expected}", file=file)
         else:
-            print(f"Expected {self.expected}, instead got `{self.actual}` of type `{type(self.actual).__name__}`", file=file)
+            print(f"Expected {self.expected}, instead got `{_show(self.actual)}` of type `{type(self.actual).__name__}`", file=file)
         if self.info is not None:
             print(f"{indent}{self.info}", file=file)
         if self.cause is not None:
@@ -135,7 +144,7 @@ class WrongLenError(ErrorNode):
         if inside_sum:
             print(f"{self.expected} (length {len_range})", file=file)
         else:
-            print(f"Expected {self.expected} of length {len_range}, instead got `{self.actual}` of length {self.actual_len}", file=file)
+            print(f"Expected {self.expected} of length {len_range}, instead got `{_show(self.actual)}` of length {self.actual_len}", file=file)
 
 
 @dataclasses.dataclass
@@ -153,7 +162,7 @@ class ConditionFailedError(ErrorNode):
         if inside_sum:
             print(self.expected, end="", file=file)
         else:
-            print(f"Expected {self.expected}, instead got `{self.actual}`", end="", file=file)
+            print(f"Expected {self.expected}, instead got `{_show(self.actual)}`", end="", file=file)
         if self.cause is not None:
             s = f"{indent}\n".join(self.cause.format())
             print(f"\nFailed to call condition '{self.condition}':\n{indent}{s}", file=file)
@@ -199,7 +208,7 @@ class ProductErrorNode(ErrorNode):
 
         print(f"{'' if inside_sum else 'Expected '}{self.expected}", file=file)
         for (field, child) in self.children.items():
-            print(f"{indent}While parsing field '{field}':\n{indent}  ", end="", file=file)
+            print(f"{indent}While parsing field '{_show(field)}':\n{indent}  ", end="", file=file)
             child.print_error(f"{indent}  ", file=file)
 
         for field in self.missing:
@@ -208,7 +217,7 @@ class ProductErrorNode(ErrorNode):
             print(f"{indent}  Missing required field '{field}'", file=file)
 
         for field in self.extra:
-            print(f"{indent}  Unexpected field '{field}'", file=file)
+            print(f"{indent}  Unexpected field '{_show(field)}'", file=file)
 
 
 @dataclasses.dataclass
@@ -230,7 +239,7 @@ class SumErrorNode(ErrorNode):
             print(f"{indent}- ", end="", file=file)
             child.print_error(f"{indent}  ", inside_sum=True, file=file)
             actual = getattr(child, 'actual', actual)
-        print(f"{indent}Instead got `{actual}` of type `{type(actual).__name__}`", file=file)
+        print(f"{indent}Instead got `{_show(actual)}` of type `{type(actual).__name__}`", file=file)
 
 
 __all__ = [
